@@ -212,7 +212,7 @@ def _extract_inputs(trace, harness_pretty):
         if not base.startswith("in_"):
             continue
         fn = st.get("sourceLocation", {}).get("function", "")
-        if not fn.endswith(harness_pretty):
+        if not (fn.endswith(harness_pretty) or "verif_" in fn):
             continue
         v = st.get("value", {})
         if "binary" not in v:
@@ -299,6 +299,8 @@ def run_harness(ov, hmeta, spec, workdir):
         res.detail = "cbmc rc=%s, unparsable output (%s)" % (rc, e)
         _safe_unlink(jout)
         return res
+    if os.environ.get("VERIF_KEEP_JSON"):
+        shutil.copy(jout, os.path.join(os.environ["VERIF_KEEP_JSON"], name + ".json"))
     _safe_unlink(jout)
     results = None
     msgs = []
@@ -324,6 +326,7 @@ def run_harness(ov, hmeta, spec, workdir):
     pretty = hmeta["pretty_name"]
     unwind_fail = False
     undecided = 0
+    und_kinds = set()
     for r in results:
         fn, cls = prop_class(r["property"])
         stt = r["status"]
@@ -342,6 +345,7 @@ def run_harness(ov, hmeta, spec, workdir):
         res.checks += 1
         if stt not in ("SUCCESS", "FAILURE"):
             undecided += 1
+            und_kinds.add(stt)
             continue
         if stt == "SUCCESS":
             res.checks_ok += 1
@@ -355,7 +359,7 @@ def run_harness(ov, hmeta, spec, workdir):
         res.failed.append(f)
     if undecided:
         res.status = "error"
-        res.detail = "%d checks left undecided by CBMC (status not SUCCESS/FAILURE)" % undecided
+        res.detail = "%d checks left undecided by CBMC (status %s) %s" % (undecided, sorted(und_kinds), " | ".join(m for m in msgs[-3:])[:300])
     elif not res.failed:
         res.status = "pass"
     elif unwind_fail and all(f["class"] == "unwind" for f in res.failed):
